@@ -416,8 +416,21 @@ func c20AllChildren(c *Ctx) {
 						}
 					}
 				}
+				// adt.Interpolation.Parts alternates string, expression, string, ...:
+				// visiting the odd indices only (as internal/core/dep does) loses nothing
+				if !unit && strings.HasSuffix(exprString(indexed), ".Parts") {
+					if as, ok := s.Init.(*ast.AssignStmt); ok && len(as.Rhs) == 1 {
+						if v, ok := constInt(info, as.Rhs[0]); ok && v == 1 {
+							if p, ok := s.Post.(*ast.AssignStmt); ok && len(p.Rhs) == 1 && p.Tok == token.ADD_ASSIGN {
+								if st, ok := constInt(info, p.Rhs[0]); ok && st == 2 {
+									unit = true
+								}
+							}
+						}
+					}
+				}
 				c.check("walker.visits-every-child-element", fmt.Sprintf("%s#loop%d", f.Name, k), s.Pos(), unit,
-					"an index loop over the child slice "+exprString(indexed)+" must step by one: a stride skips children whose references then keep nothing alive")
+					"an index loop over the child slice "+exprString(indexed)+" must step by one (for Interpolation.Parts the odd, expression-carrying indices suffice): a stride skips children whose references then keep nothing alive")
 			}
 			return true
 		})
